@@ -200,6 +200,33 @@ func genC08(g *Rng, tier string, emit func(Op)) {
 				}
 			}
 		}
+		// a range proof whose response arrays are BOTH cut or padded to one length that is not the
+		// number of squares
+		for pi, ptree := range s.trees {
+			pt, _ := ptree.(T)
+			rps, _ := pt["rangeproofs"].(T)
+			for idx, lst := range rps {
+				arr, _ := lst.([]any)
+				for ri := range arr {
+					rp, _ := arr[ri].(T)
+					ds, _ := rp["ds"].([]any)
+					vs, _ := rp["vs"].([]any)
+					if len(ds) == 0 || len(ds) != len(vs) {
+						continue
+					}
+					for _, n := range []int{0, 1, len(ds) - 1, len(ds) + 1, len(ds) + 3} {
+						t2 := cloneTree(root).(T)
+						r2 := t2["l"].([]any)[pi].(T)["rangeproofs"].(T)[idx].([]any)[ri].(T)
+						d2, v2 := r2["ds"].([]any), r2["vs"].([]any)
+						for len(d2) < n {
+							d2, v2 = append(d2, cloneTree(d2[0])), append(v2, cloneTree(v2[0]))
+						}
+						r2["ds"], r2["vs"] = d2[:n], v2[:n]
+						emit(listOp(s.keys, t2["l"].([]any), s.ctx, s.nonce, false, nil, "rangeproof-both-response-arrays-resized", "reject|decode-error").with("fkey", "C08/rangeproof-arrays-resized"))
+					}
+				}
+			}
+		}
 		// an additional null member in every object of the message (whatever its name): at most a
 		// refusal, never a crash
 		for _, mp := range paths {
